@@ -1,0 +1,230 @@
+//go:build verif
+
+package dna
+
+// Contracts for property C08 (govc), third batch: the model PARAMETER ESTIMATION DistMatrix relies on
+// (alignmentToCodes, probaNt, the seven InitModel methods). Comments only.
+
+//@ table ntByteToId C08 C07
+
+// ---- alignmentToCodes: every residue mapped to its IUPAC bit-set code (A=1, C=2, G=4, T=8; gap/*/X/. = 0) ----
+
+// every residue of the first n rows is a character of the IUPAC table (after case folding)
+//@ pure func c8c_known(a align.Alignment, n int) bool = forall r, c :: 0 <= r && r < n && 0 <= c && c < a.length ==> c8c_iupac(cell(a, r, c))
+// rows 0..n of the code matrix m are the codes of rows 0..n of the alignment
+//@ pure func c8c_coded(m [][]uint8, a align.Alignment, n int) bool = forall r, c :: 0 <= r && r < n && 0 <= c && c < a.length ==> m[r][c] == ntcode(cell(a, r, c))
+//@ pure func c8c_rect(m [][]uint8, n int, l int) bool = forall r :: 0 <= r && r < n ==> len(m[r]) == l
+
+// every code of the n x l matrix is a 4-bit set (what the counters and probaNt require of their inputs)
+//@ pure func c8c_codes(m [][]uint8, n int, l int) bool = forall r, c :: 0 <= r && r < n && 0 <= c && c < l ==> m[r][c] <= 15
+
+//@ func alignmentToCodes
+//@   props C08 C07 C19
+//@   requires wfa(al)
+//@   ensures (err == nil) == c8c_known(al, nrows(al))
+//@   ensures len(sequencesInCode) == nrows(al) && fresh(sequencesInCode)
+//@   ensures err == nil ==> c8c_rect(sequencesInCode, nrows(al), al.length) && c8c_coded(sequencesInCode, al, nrows(al))
+//@   ensures err == nil ==> c8c_codes(sequencesInCode, nrows(al), al.length)
+//@   ensures err == nil ==> forall r :: 0 <= r && r < nrows(al) ==> fresh(sequencesInCode[r])
+//@   modifies nothing
+//@   loop 1 in (*seqbag).IterateChar
+//@     invariant stop == false && err == nil && i == $i && len(sequencesInCode) == nrows(al) && fresh(sequencesInCode)
+//@     invariant c8c_known(al, $i) && c8c_rect(sequencesInCode, $i, al.length) && c8c_coded(sequencesInCode, al, $i)
+//@     invariant forall r :: 0 <= r && r < $i ==> fresh(sequencesInCode[r]) && allocated(sequencesInCode[r])
+//@     decreases nrows(al) - $i
+
+//@ func alignmentToCodes$1
+//@   props C08 C07
+//@   inline
+//@   requires al != nil && 0 <= i && i < len(sequencesInCode) && len(seq) == al.length && err == nil
+//@   ensures result == (err != nil)
+//@   modifies sequencesInCode[i]
+//@   loop 1
+//@     modifies sequencesInCode[i][*]
+//@     invariant 0 <= $i && $i <= len(seq) && err == nil && len(sequencesInCode[i]) == al.length && fresh(sequencesInCode[i])
+//@     invariant forall c :: 0 <= c && c < $i ==> c8c_iupac(seq[c]) && sequencesInCode[i][c] == ntcode(seq[c])
+//@     decreases len(seq) - $i
+
+// ---- probaNt: base frequencies, column-additive ----
+
+// the part of the weight x (= w / number of bases the code c denotes) that code c gives to base k (0=A, 1=C, 2=G, 3=T),
+// over the first j bases of its set: an ambiguous code shares its weight equally between the bases it denotes
+//@ pure func c8c_share(c int, k int, j int, x real) real = (j <= 0 ? 0.0 : c8c_share(c, k, j-1, x) + (ntByteToId[c8c_poss(c, j-1)] == k ? x : 0.0))
+// what one cell of code c and weight w adds to the count of base k / to the total: only nucleotides (codes 1..15) count
+//@ pure func c8c_cellk(c int, k int, w real) real = (isnuc(c) ? c8c_share(c, k, c8c_nposs(c), w / real(c8c_nposs(c))) : 0.0)
+//@ pure func c8c_cellt(c int, w real) real = (isnuc(c) ? w : 0.0)
+// column p, rows 0..r
+//@ pure func c8c_colk(sc [][]uint8, k int, p int, r int, w real) real = (r <= 0 ? 0.0 : c8c_colk(sc, k, p, r-1, w) + c8c_cellk(sc[r-1][p], k, w))
+//@ pure func c8c_colt(sc [][]uint8, p int, r int, w real) real = (r <= 0 ? 0.0 : c8c_colt(sc, p, r-1, w) + c8c_cellt(sc[r-1][p], w))
+// columns 0..p of the n rows: a sum over the SELECTED columns of a function of the column content and weight only
+//@ pure func c8c_numk(sc [][]uint8, sel []bool, wts []float64, k int, n int, p int) real = (p <= 0 ? 0.0 : c8c_numk(sc, sel, wts, k, n, p-1) + (sel[p-1] ? c8c_colk(sc, k, p-1, n, wgt(wts, p-1)) : 0.0))
+//@ pure func c8c_den(sc [][]uint8, sel []bool, wts []float64, n int, p int) real = (p <= 0 ? 0.0 : c8c_den(sc, sel, wts, n, p-1) + (sel[p-1] ? c8c_colt(sc, p-1, n, wgt(wts, p-1)) : 0.0))
+//@ pure func c8c_ncols(sc [][]uint8) int = (len(sc) > 0 ? len(sc[0]) : 0)
+//@ pure func c8c_scok(sc [][]uint8, sel []bool, wts []float64) bool = c8c_codes(sc, len(sc), c8c_ncols(sc)) && (forall r :: 0 <= r && r < len(sc) ==> len(sc[r]) >= c8c_ncols(sc)) && len(sel) >= c8c_ncols(sc) && weightsok(wts, c8c_ncols(sc))
+
+// the whole matrix: weighted count of base k, weighted number of nucleotide cells, over the selected columns
+//@ pure func c8c_N(sc [][]uint8, sel []bool, wts []float64, k int) real = c8c_numk(sc, sel, wts, k, len(sc), c8c_ncols(sc))
+//@ pure func c8c_D(sc [][]uint8, sel []bool, wts []float64) real = c8c_den(sc, sel, wts, len(sc), c8c_ncols(sc))
+// j times x, j = 0..4 (the bases of one code get x = w/j each: together w)
+//@ pure func c8c_rep(j int, x real) real = (j <= 0 ? 0.0 : (j == 1 ? x : (j == 2 ? x + x : (j == 3 ? x + x + x : x + x + x + x))))
+//@ pure func c8c_sum4(s []float64) real = fin(s[0]) + fin(s[1]) + fin(s[2]) + fin(s[3])
+
+// the two tables against the IUPAC bit-set meaning (A=1, C=2, G=4, T=8): a code denotes as many bases as it has bits, and base k gets
+// the share x exactly when bit k of the code is set (60 ground cases)
+//@ pure func c8c_bit(k int) int = (k == 0 ? 1 : (k == 1 ? 2 : (k == 2 ? 4 : 8)))
+//@ lemma c8c_iupac_sets(c int, k int, x real)
+//@   props C08 C07
+//@   cases c 1 15
+//@   cases k 0 3
+//@   ensures c8c_nposs(c) == (c & 1) + godiv(c & 2, 2) + godiv(c & 4, 4) + godiv(c & 8, 8)
+// (the prefixes 0 and 2 are named so that the recursion of c8c_share, unfolded two levels at each named application, reaches its base)
+//@   ensures c8c_share(c, k, 0, x) == 0.0 && (c8c_nposs(c) >= 2 ==> c8c_share(c, k, 2, x) == (ntByteToId[c8c_poss(c, 0)] == k ? x : 0.0) + (ntByteToId[c8c_poss(c, 1)] == k ? x : 0.0)) && c8c_share(c, k, c8c_nposs(c), x) == ((c & c8c_bit(k)) != 0 ? x : 0.0)
+
+//@ func probaNt
+//@   props C08 C07 C19
+//@   float xreal
+//@   requires c8c_scok(sequenceCodes, selectedSites, weights)
+//@   ensures result1 == nil && len(result0) == 4 && fresh(result0)
+// (1) column-additive: pi[k] = (sum over the selected columns of the weighted count of base k in the column) / (the same for all bases)
+//@   ensures old(c8c_D(sequenceCodes, selectedSites, weights)) != 0.0 ==> forall k :: 0 <= k && k < 4 ==> isfin(result0[k]) && fin(result0[k]) == old(c8c_N(sequenceCodes, selectedSites, weights, k)) / old(c8c_D(sequenceCodes, selectedSites, weights))
+//@   ensures old(c8c_D(sequenceCodes, selectedSites, weights)) >= 0.0 && (forall k :: 0 <= k && k < 4 ==> old(c8c_N(sequenceCodes, selectedSites, weights, k)) >= 0.0)
+//@   ensures old(c8c_N(sequenceCodes, selectedSites, weights, 0)) + old(c8c_N(sequenceCodes, selectedSites, weights, 1)) + old(c8c_N(sequenceCodes, selectedSites, weights, 2)) + old(c8c_N(sequenceCodes, selectedSites, weights, 3)) == old(c8c_D(sequenceCodes, selectedSites, weights))
+// frequencies: non-negative, sum to 1 as soon as one nucleotide cell with positive weight is selected
+//@   ensures old(c8c_D(sequenceCodes, selectedSites, weights)) != 0.0 ==> forall k :: 0 <= k && k < 4 ==> fin(result0[k]) >= 0.0
+//@   ensures old(c8c_D(sequenceCodes, selectedSites, weights)) != 0.0 ==> c8c_sum4(result0) == 1.0
+// no selected nucleotide cell of positive weight: 0/0, the frequencies are NaN (never a finite value)
+//@   ensures old(c8c_D(sequenceCodes, selectedSites, weights)) == 0.0 ==> forall k :: 0 <= k && k < 4 ==> isnan(result0[k])
+//@   modifies nothing
+//@   loop 1
+//@     invariant 0 <= pos && pos <= l && l == c8c_ncols(sequenceCodes) && len(pi) == 4 && fresh(pi) && isfin(w) && (weights == nil ==> fin(w) == 1.0)
+//@     invariant isfin(total) && fin(total) == old(c8c_den(sequenceCodes, selectedSites, weights, len(sequenceCodes), pos))
+//@     invariant forall k :: 0 <= k && k < 4 ==> isfin(pi[k]) && fin(pi[k]) == old(c8c_numk(sequenceCodes, selectedSites, weights, k, len(sequenceCodes), pos))
+//@     invariant fin(total) >= 0.0 && (forall k :: 0 <= k && k < 4 ==> fin(pi[k]) >= 0.0) && c8c_sum4(pi) == fin(total)
+//@     decreases l - pos
+//@   loop 2
+//@     invariant 0 <= pos && pos < l && l == c8c_ncols(sequenceCodes) && len(pi) == 4 && fresh(pi) && 0 <= seqidx && seqidx <= len(sequenceCodes)
+//@     invariant isfin(w) && fin(w) == old(wgt(weights, pos))
+//@     invariant isfin(total)
+//@     invariant selectedSites[pos] ==> fin(total) == old(c8c_den(sequenceCodes, selectedSites, weights, len(sequenceCodes), pos)) + old(c8c_colt(sequenceCodes, pos, seqidx, fin(w)))
+//@     invariant !selectedSites[pos] ==> fin(total) == old(c8c_den(sequenceCodes, selectedSites, weights, len(sequenceCodes), pos))
+//@     invariant forall k :: 0 <= k && k < 4 ==> isfin(pi[k])
+//@     invariant selectedSites[pos] ==> forall k :: 0 <= k && k < 4 ==> fin(pi[k]) == old(c8c_numk(sequenceCodes, selectedSites, weights, k, len(sequenceCodes), pos)) + old(c8c_colk(sequenceCodes, k, pos, seqidx, fin(w)))
+//@     invariant !selectedSites[pos] ==> forall k :: 0 <= k && k < 4 ==> fin(pi[k]) == old(c8c_numk(sequenceCodes, selectedSites, weights, k, len(sequenceCodes), pos))
+//@     invariant fin(total) >= 0.0 && (forall k :: 0 <= k && k < 4 ==> fin(pi[k]) >= 0.0) && c8c_sum4(pi) == fin(total)
+//@     decreases len(sequenceCodes) - seqidx
+//@   loop 3
+//@     invariant 0 <= pos && pos < l && l == c8c_ncols(sequenceCodes) && len(pi) == 4 && fresh(pi) && 0 <= seqidx && seqidx < len(sequenceCodes) && selectedSites[pos]
+//@     invariant sameslice(seq1, sequenceCodes[seqidx]) && isnuc(seq1[pos]) && len(id1) == c8c_nposs(seq1[pos]) && (forall j :: 0 <= j && j < len(id1) ==> id1[j] == c8c_poss(seq1[pos], j))
+//@     invariant isfin(w) && fin(w) == old(wgt(weights, pos))
+//@     invariant isfin(total) && fin(total) == old(c8c_den(sequenceCodes, selectedSites, weights, len(sequenceCodes), pos)) + old(c8c_colt(sequenceCodes, pos, seqidx, fin(w)))
+//@     invariant forall k :: 0 <= k && k < 4 ==> isfin(pi[k]) && fin(pi[k]) == old(c8c_numk(sequenceCodes, selectedSites, weights, k, len(sequenceCodes), pos)) + old(c8c_colk(sequenceCodes, k, pos, seqidx, fin(w))) + c8c_share(seq1[pos], k, $i, fin(w) / real(len(id1)))
+//@     invariant fin(total) >= 0.0 && (forall k :: 0 <= k && k < 4 ==> fin(pi[k]) >= 0.0) && 1 <= len(id1) && len(id1) <= 4 && c8c_sum4(pi) == fin(total) + c8c_rep($i, fin(w) / real(len(id1)))
+//@     decreases len(id1) - $i
+//@   loop 4
+//@     invariant len(pi) == 4 && fresh(pi) && isfin(total) && fin(total) == old(c8c_D(sequenceCodes, selectedSites, weights))
+//@     invariant forall k :: 0 <= k && k < 4 ==> (k < $i && fin(total) != 0.0 ==> isfin(pi[k]) && fin(pi[k]) == old(c8c_N(sequenceCodes, selectedSites, weights, k)) / fin(total))
+//@     invariant forall k :: $i <= k && k < 4 ==> isfin(pi[k]) && fin(pi[k]) == old(c8c_N(sequenceCodes, selectedSites, weights, k))
+//@     invariant forall k :: 0 <= k && k < $i && fin(total) == 0.0 ==> isnan(pi[k])
+//@     invariant fin(total) >= 0.0 && (forall k :: 0 <= k && k < 4 ==> old(c8c_N(sequenceCodes, selectedSites, weights, k)) >= 0.0)
+//@     invariant old(c8c_N(sequenceCodes, selectedSites, weights, 0)) + old(c8c_N(sequenceCodes, selectedSites, weights, 1)) + old(c8c_N(sequenceCodes, selectedSites, weights, 2)) + old(c8c_N(sequenceCodes, selectedSites, weights, 3)) == fin(total)
+//@     decreases 4 - $i
+
+// ---- InitModel: every parameter of the model is a function of the alignment, the weights and the options of THIS call ----
+// (no clause mentions the previous content of a field other than the configuration `removegaps`: a model object reused
+// for a second DistMatrix call gets the parameters a new object would get)
+
+// what DistMatrix hands over: a non-empty well-formed nucleotide alignment (DistMatrix checks the alphabet; an empty alignment
+// panics in selectedSites: known observation of the C08 report), one finite non-negative weight per site or nil
+//@ pure func c8c_pre(al align.Alignment, wts []float64) bool = wfa(al) && al.length >= 0 && al.alphabet == align.NUCLEOTIDS && weightsok(wts, al.length)
+// the site mask: every site, or with removegaps exactly the columns made of A, C, G, T (selectedSites, zz_contracts_c08_verif.go)
+//@ pure func c8c_selok(sel []bool, al align.Alignment, rg bool) bool = len(sel) == al.length && (forall k :: 0 <= k && k < al.length ==> sel[k] == (!rg || c8_purecol(al, k, nrows(al))))
+// the code matrix: one row per sequence, rectangular, cell = IUPAC code of the residue
+//@ pure func c8c_codesok(sc [][]uint8, al align.Alignment) bool = len(sc) == nrows(al) && c8c_rect(sc, nrows(al), al.length) && c8c_coded(sc, al, nrows(al)) && c8c_codes(sc, nrows(al), al.length)
+// the base frequencies stored by the model: column-additive counts of THIS alignment over THIS site mask with THESE weights
+//@ pure func c8c_piok(pi []float64, sc [][]uint8, sel []bool, wts []float64) bool = len(pi) == 4 && (c8c_D(sc, sel, wts) != 0.0 ==> forall k :: 0 <= k && k < 4 ==> isfin(pi[k]) && fin(pi[k]) >= 0.0 && fin(pi[k]) == c8c_N(sc, sel, wts, k) / c8c_D(sc, sel, wts)) && (c8c_D(sc, sel, wts) != 0.0 ==> c8c_sum4(pi) == 1.0) && (c8c_D(sc, sel, wts) == 0.0 ==> forall k :: 0 <= k && k < 4 ==> isnan(pi[k]))
+
+//@ func (*JCModel).InitModel
+//@   props C08 C07
+//@   float xreal
+//@   requires m != nil && c8c_pre(al, weights)
+//@   ensures m.gamma == gamma && m.alpha == alpha
+//@   ensures m.removegaps == old(m.removegaps) && fresh(m.selectedSites) && c8c_selok(m.selectedSites, al, m.removegaps) && isfin(m.numSites) && fin(m.numSites) >= 0.0
+//@   ensures (err == nil) == c8c_known(al, nrows(al))
+//@   ensures fresh(m.sequenceCodes) && len(m.sequenceCodes) == nrows(al) && (err == nil ==> c8c_codesok(m.sequenceCodes, al))
+//@   modifies m.gamma, m.alpha, m.numSites, m.selectedSites, m.sequenceCodes
+
+//@ func (*K2PModel).InitModel
+//@   props C08 C07
+//@   float xreal
+//@   requires m != nil && c8c_pre(al, weights)
+//@   ensures m.gamma == gamma && m.alpha == alpha
+//@   ensures m.removegaps == old(m.removegaps) && fresh(m.selectedSites) && c8c_selok(m.selectedSites, al, m.removegaps) && isfin(m.numSites) && fin(m.numSites) >= 0.0
+//@   ensures (err == nil) == c8c_known(al, nrows(al))
+//@   ensures fresh(m.sequenceCodes) && len(m.sequenceCodes) == nrows(al) && (err == nil ==> c8c_codesok(m.sequenceCodes, al))
+//@   modifies m.gamma, m.alpha, m.numSites, m.selectedSites, m.sequenceCodes
+
+//@ func (*PDistModel).InitModel
+//@   props C08 C07
+//@   float xreal
+//@   requires m != nil && c8c_pre(al, weights)
+//@   ensures m.removegaps == old(m.removegaps) && fresh(m.selectedSites) && c8c_selok(m.selectedSites, al, m.removegaps) && isfin(m.numSites) && fin(m.numSites) >= 0.0
+//@   ensures (err == nil) == c8c_known(al, nrows(al))
+//@   ensures fresh(m.sequenceCodes) && len(m.sequenceCodes) == nrows(al) && (err == nil ==> c8c_codesok(m.sequenceCodes, al))
+//@   ensures m.countgapmut == old(m.countgapmut) && m.removeAmbiguous == old(m.removeAmbiguous)
+//@   modifies m.numSites, m.selectedSites, m.sequenceCodes
+
+//@ func (*RawDistModel).InitModel
+//@   props C08 C07
+//@   float xreal
+//@   requires m != nil && c8c_pre(al, weights)
+//@   ensures m.removegaps == old(m.removegaps) && fresh(m.selectedSites) && c8c_selok(m.selectedSites, al, m.removegaps) && isfin(m.numSites) && fin(m.numSites) >= 0.0
+//@   ensures (err == nil) == c8c_known(al, nrows(al))
+//@   ensures fresh(m.sequenceCodes) && len(m.sequenceCodes) == nrows(al) && (err == nil ==> c8c_codesok(m.sequenceCodes, al))
+//@   ensures m.countgapmut == old(m.countgapmut)
+//@   modifies m.numSites, m.selectedSites, m.sequenceCodes
+
+// TN93: the base frequencies
+//@ func (*TN93Model).InitModel
+//@   props C08 C07
+//@   float xreal
+//@   requires m != nil && c8c_pre(al, weights)
+//@   ensures m.gamma == gamma && m.alpha == alpha
+//@   ensures m.removegaps == old(m.removegaps) && fresh(m.selectedSites) && c8c_selok(m.selectedSites, al, m.removegaps) && isfin(m.numSites) && fin(m.numSites) >= 0.0
+//@   ensures (err == nil) == c8c_known(al, nrows(al))
+//@   ensures fresh(m.sequenceCodes) && len(m.sequenceCodes) == nrows(al) && (err == nil ==> c8c_codesok(m.sequenceCodes, al))
+//@   ensures err == nil ==> fresh(m.pi) && c8c_piok(m.pi, m.sequenceCodes, m.selectedSites, weights)
+//@   modifies m.gamma, m.alpha, m.pi, m.numSites, m.selectedSites, m.sequenceCodes
+
+// F81
+//@ func (*F81Model).InitModel
+//@   props C08 C07
+//@   float xreal
+//@   requires m != nil && c8c_pre(al, weights)
+//@   ensures m.gamma == gamma && m.alpha == alpha
+//@   ensures m.removegaps == old(m.removegaps) && fresh(m.selectedSites) && c8c_selok(m.selectedSites, al, m.removegaps) && isfin(m.numSites) && fin(m.numSites) >= 0.0
+//@   ensures (err == nil) == c8c_known(al, nrows(al))
+//@   ensures fresh(m.sequenceCodes) && len(m.sequenceCodes) == nrows(al) && (err == nil ==> c8c_codesok(m.sequenceCodes, al))
+//@   ensures err == nil ==> fresh(m.pi) && c8c_piok(m.pi, m.sequenceCodes, m.selectedSites, weights)
+// b1 = 1 - sum of the squared base frequencies of THIS call (recomputed from 0: nothing of the previous b1 survives)
+//@   ensures err == nil && c8c_D(m.sequenceCodes, m.selectedSites, weights) != 0.0 ==> isfin(m.b1) && fin(m.b1) == 1.0 - (fin(m.pi[0]) * fin(m.pi[0]) + fin(m.pi[1]) * fin(m.pi[1]) + fin(m.pi[2]) * fin(m.pi[2]) + fin(m.pi[3]) * fin(m.pi[3]))
+//@   modifies m.gamma, m.alpha, m.pi, m.b1, m.numSites, m.selectedSites, m.sequenceCodes
+//@   loop 1
+//@     invariant err == nil && m != nil && len(m.pi) == 4 && 0 <= $i && $i <= 4
+//@     invariant c8c_D(m.sequenceCodes, m.selectedSites, weights) != 0.0 ==> isfin(m.b1) && fin(m.b1) == ($i <= 0 ? 0.0 : fin(m.pi[0]) * fin(m.pi[0])) + ($i <= 1 ? 0.0 : fin(m.pi[1]) * fin(m.pi[1])) + ($i <= 2 ? 0.0 : fin(m.pi[2]) * fin(m.pi[2])) + ($i <= 3 ? 0.0 : fin(m.pi[3]) * fin(m.pi[3]))
+//@     decreases 4 - $i
+
+// F84
+//@ func (*F84Model).InitModel
+//@   props C08 C07
+//@   float xreal
+//@   requires m != nil && c8c_pre(al, weights)
+//@   ensures m.gamma == gamma && m.alpha == alpha
+//@   ensures m.removegaps == old(m.removegaps) && fresh(m.selectedSites) && c8c_selok(m.selectedSites, al, m.removegaps) && isfin(m.numSites) && fin(m.numSites) >= 0.0
+//@   ensures (err == nil) == c8c_known(al, nrows(al))
+//@   ensures fresh(m.sequenceCodes) && len(m.sequenceCodes) == nrows(al) && (err == nil ==> c8c_codesok(m.sequenceCodes, al))
+//@   ensures err == nil ==> fresh(m.pi) && c8c_piok(m.pi, m.sequenceCodes, m.selectedSites, weights)
+// a, b, c: the F84 constants of the base frequencies of THIS call (piA = pi[0], piC = pi[1], piG = pi[2], piT = pi[3])
+//@   ensures err == nil && c8c_D(m.sequenceCodes, m.selectedSites, weights) != 0.0 ==> isfin(m.b) && fin(m.b) == fin(m.pi[0]) * fin(m.pi[2]) + fin(m.pi[1]) * fin(m.pi[3])
+//@   ensures err == nil && c8c_D(m.sequenceCodes, m.selectedSites, weights) != 0.0 ==> isfin(m.c) && fin(m.c) == (fin(m.pi[0]) + fin(m.pi[2])) * (fin(m.pi[1]) + fin(m.pi[3]))
+//@   ensures err == nil && c8c_D(m.sequenceCodes, m.selectedSites, weights) != 0.0 && fin(m.pi[0]) + fin(m.pi[2]) != 0.0 && fin(m.pi[1]) + fin(m.pi[3]) != 0.0 ==> isfin(m.a) && fin(m.a) == fin(m.pi[0]) * fin(m.pi[2]) / (fin(m.pi[0]) + fin(m.pi[2])) + fin(m.pi[1]) * fin(m.pi[3]) / (fin(m.pi[1]) + fin(m.pi[3]))
+//@   modifies m.gamma, m.alpha, m.pi, m.a, m.b, m.c, m.numSites, m.selectedSites, m.sequenceCodes
